@@ -567,3 +567,20 @@ Inductive constructed : err -> Prop :=
 | C_token id desc p : scan_state_ok p -> constructed (new_token_required id desc p)
 | C_token_bib id desc p start : bib_state_ok p start -> constructed (new_token_required_bib id desc p start)
 | C_aux id msg c : constructed (new_aux_error id msg c).
+
+(* ------------------------------------------------------------------------------- *)
+(* the shape rendering relies on: a message is CONCATENATED into str(error), never used as a
+   format template.  What __str__ puts in front of the message depends on the class, its
+   error_type and the line number only -- never on the characters of the message (braces,
+   percent signs, backslashes, line breaks in user-controlled text are inert). *)
+Definition kind_prefix (k : skind) : str :=
+  match k with
+  | SPlain => []
+  | SSyntax etype lineno =>
+    etype ++ (match lineno with Some n => k_sp_in_line ++ Z_to_str n | None => [] end) ++ k_colon_sp
+  | SAux lineno =>
+    match lineno with
+    | Some n => if (n =? 0)%Z then [] else k_in_line ++ Z_to_str n ++ k_colon_sp
+    | None => []
+    end
+  end.
